@@ -32,6 +32,8 @@ type frame struct {
 	loops map[int]*loopInfo
 	cur   *ssa.BasicBlock
 	snap  map[int][]Atom // loop header -> memory cells snapshotted at loop entry (variants over memory)
+	recCut bool          // a recursive call was cut while evaluating the current block
+	recBlocks map[int]bool // blocks containing a recursion cut
 }
 
 type loopInfo struct {
@@ -206,11 +208,11 @@ func (e *Engine) fixpoint(fr *frame) {
 				if isLoop && old != nil {
 					fr.visits[b.Index]++
 					if fr.visits[b.Index] > widenDelay {
-						NoThresholds = fr.visits[b.Index] > widenDelay+8
-						ExtraThresholds = e.fnThresholds(fn)
+						e.noThresholds = fr.visits[b.Index] > widenDelay+8
+						e.extraThresholds = e.fnThresholds(fn)
 						newIn = Join(old, newIn, e.liveAt(b), true)
-						NoThresholds = false
-						ExtraThresholds = nil
+						e.noThresholds = false
+						e.extraThresholds = nil
 					}
 				}
 				if old != nil && newIn.SameAs(old) {
@@ -268,12 +270,9 @@ func (e *Engine) liveAt(b *ssa.BasicBlock) func(Atom) bool {
 
 func isPhi(in ssa.Instruction) bool { _, ok := in.(*ssa.Phi); return ok }
 
-var ownerCacheLen int
-var ownerCache map[Atom]ssa.Value
-
 func (e *Engine) atomOwner() map[Atom]ssa.Value {
-	if ownerCache != nil && ownerCacheLen == len(e.valAtom)+len(e.lenAtoms) {
-		return ownerCache
+	if e.ownerCache != nil && e.ownerCacheLen == len(e.valAtom)+len(e.lenAtoms) {
+		return e.ownerCache
 	}
 	m := make(map[Atom]ssa.Value, len(e.valAtom)+len(e.lenAtoms))
 	for v, a := range e.valAtom {
@@ -282,7 +281,7 @@ func (e *Engine) atomOwner() map[Atom]ssa.Value {
 	for v, a := range e.lenAtoms {
 		m[a] = v
 	}
-	ownerCache, ownerCacheLen = m, len(e.valAtom)+len(e.lenAtoms)
+	e.ownerCache, e.ownerCacheLen = m, len(e.valAtom)+len(e.lenAtoms)
 	return m
 }
 
@@ -460,7 +459,14 @@ func (e *Engine) runBlock(fr *frame, b *ssa.BasicBlock, final bool) {
 			}
 			return
 		case *ssa.Call:
+			fr.recCut = false
 			ns := e.call(fr, st, in)
+			if fr.recCut {
+				if fr.recBlocks == nil {
+					fr.recBlocks = map[int]bool{}
+				}
+				fr.recBlocks[b.Index] = true
+			}
 			if ns == nil {
 				// callee never returns normally on this state
 				for _, s := range b.Succs {
@@ -757,9 +763,22 @@ func (e *Engine) checkLoops(fr *frame) {
 		}
 		ok, why := e.loopTerminates(fr, l)
 		in := l.header.Instrs[len(l.header.Instrs)-1]
-		e.oblige(fr, "T-LOOP", in, "variant", ok, why)
 		aok, awhy := e.loopAllocation(fr, l)
-		e.oblige(fr, "M-ALLOC", in, "loop", aok, awhy)
+		rec := false
+		for bi := range l.blocks {
+			if fr.recBlocks[bi] {
+				rec = true
+			}
+		}
+		if rec && (!ok || !aok) {
+			// progress of this loop depends on a recursive call that the engine
+			// summarises conservatively: it is decided by the type-shape rule T-REC
+			// of the property code (never waived here)
+			e.oblige(fr, "T-REC", in, "loop-over-recursion", false, "loop whose progress depends on a recursive call: "+why+"; "+awhy)
+		} else {
+			e.oblige(fr, "T-LOOP", in, "variant", ok, why)
+			e.oblige(fr, "M-ALLOC", in, "loop", aok, awhy)
+		}
 		if e.OnLoop != nil {
 			e.OnLoop(e, fr, l)
 		}
